@@ -51,8 +51,9 @@ def run_lp(spec, opts, workdir, rng, inject=True, noise=True, second_side=None,
            time_limit=None, faults=None, clock=None, getters=('short', 'long', 'debug'),
            text=None, argv=None, decoy_argv=None, cbc_options=None):
     """One monitored execution of the real Solver.  Never raises."""
+    import sys as _sys
     from matchingproblems.solver import Solver
-    import matchingproblems.solver.solver as solver_mod
+    solver_mod = _sys.modules[Solver.__module__]      # the module whose `datetime` the controller uses
     if second_side is None:
         second_side = True if opts['twopl'] else (rng.random() < 0.5)
     if text is None:
@@ -69,7 +70,7 @@ def run_lp(spec, opts, workdir, rng, inject=True, noise=True, second_side=None,
     TAP.faults = faults
     TAP.time_limit = time_limit
     TAP.force_options = cbc_options
-    real_dt = solver_mod.datetime
+    real_dt = getattr(solver_mod, 'datetime', None)
     if clock is not None:
         TAP.clock = clock
         solver_mod.datetime = clock
